@@ -88,9 +88,10 @@ class FakeBinaryTherm:
         return self.D * np.ones(x.shape) if x.ndim > 0 else self.D
 
     def getTracerDiffusivity(self, x, T, removeCache=True, phase=None):
-        self.log.append(("getTracerDiffusivity", float(np.atleast_1d(T)[0])))
+        Ta = np.atleast_1d(T)
+        self.log.append(("getTracerDiffusivity", float(Ta[0]) if Ta.size else float("nan")))      # (empty arrays: zero critical radius)
         x = np.atleast_1d(np.asarray(x, dtype=float))
-        return np.squeeze(self.D * np.ones((len(x), 2)))
+        return np.squeeze(self.D * np.ones((len(x), 2))) if len(x) else np.zeros((0, 2))
 
 
 class FakeMultiTherm:
